@@ -81,6 +81,10 @@ fn main() {
         }
         return;
     }
+    if args.len() >= 2 && args[1] == "gen-seeds" {
+        vharness::seeds::write_seeds(Path::new("/verif/fuzz/seeds")).expect("write seeds");
+        return;
+    }
     if args.len() >= 2 && args[1] == "list" {
         for d in &reg {
             println!("{}", d.id);
